@@ -66,4 +66,5 @@ ScalarStep ==
          j == ScalarJudge(e)
      IN Note(j[1], e, j[2])
   /\ l' = l + 1
+  /\ UNCHANGED regs
 =============================================================================
